@@ -299,6 +299,18 @@ def canOf (r : Except Err α) : Except Err Bool :=
   | .error .userWarning => .ok false
   | .error e => .error e
 
+/-- one round of the loop of `_begin_hand_killing` (5764-5775): a player still in the hand is flagged iff
+    he cannot win now — and never when he is alone in the hand (since the F24 repair) -/
+def killStep (s : State) (acc : Except Err (List Bool)) (i : Nat) : Except Err (List Bool) :=
+  match acc with
+  | .error e => .error e
+  | .ok l =>
+    if !getB s.statuses i then .ok l
+    else if s.liveCount ≤ 1 then .ok (l.set i false)
+    else match s.canWinNow cfg env i with
+      | .error e => .error e
+      | .ok b => .ok (l.set i (!b))
+
 /-- one micro-step of the interpreter -/
 def step (m : M) : M :=
   match m.ctl with
@@ -716,14 +728,7 @@ def step (m : M) : M :=
   | .beginKill =>
     if anyB s.handKilling then m.raise .assertionError
     else
-      let r := (playerIndices cfg).foldl (fun (acc : Except Err (List Bool)) i =>
-        match acc with
-        | .error e => .error e
-        | .ok l =>
-          if !getB s.statuses i then .ok l
-          else match s.canWinNow cfg env i with
-            | .error e => .error e
-            | .ok b => .ok (l.set i (!b))) (.ok s.handKilling)
+      let r := (playerIndices cfg).foldl (killStep cfg env s) (.ok s.handKilling)
       match r with
       | .error e => m.raise e
       | .ok hk => m.cont { s with handKilling := hk } [.updKill none] rest
